@@ -19,10 +19,13 @@ func isSpecGenFn(w *World, fn *ssa.Function) bool {
 func (w *World) specFn(name string) *ssa.Function {
 	if w.specFns == nil {
 		w.specFns = map[string]*ssa.Function{}
-		for _, sp := range w.SsaPkgs {
+		for path, sp := range w.SsaPkgs {
 			for n, m := range sp.Members {
 				if f, ok := m.(*ssa.Function); ok && (strings.HasPrefix(n, "spec__")) {
-					w.specFns[n] = f
+					w.specFns[path+"::"+n] = f
+					if !strings.HasPrefix(n, "spec__pkginv_") && !strings.HasPrefix(n, "spec__const_") && !strings.HasPrefix(n, "spec__lemma_") {
+						w.specFns[n] = f
+					}
 				}
 			}
 		}
@@ -934,7 +937,7 @@ func (e *Eng) applyMod(fr *Frame, st, old *State, instr ssa.Instruction, fc *Fun
 			}
 		case "global":
 			for n, srt := range e.heapNames {
-				if n == "Glob|"+t.fam || strings.HasPrefix(n, "Glob|"+t.fam+"#") || strings.HasPrefix(n, "Glob|"+t.fam+".") {
+				if globalMatches(n, t.fam) {
 					st.heap[n] = e.fresh("modglob", srt)
 					e.modified[n] = true
 				}
@@ -1047,7 +1050,7 @@ func (e *Eng) checkFrameStore(fr *Frame, st *State, p *PtrV, in ssa.Instruction)
 			if t.kind == "all" {
 				return
 			}
-			if t.kind == "global" && ("Glob|"+t.fam == p.Fam || strings.HasSuffix(p.Fam, "."+t.fam)) {
+			if t.kind == "global" && globalMatches(p.Fam, t.fam) {
 				return
 			}
 		}
@@ -1298,15 +1301,17 @@ func (e *Eng) doAppend(fr *Frame, st *State, instr ssa.Instruction, cc *ssa.Call
 	nr := e.newRef(fr, st, "append")
 	nc := e.fresh("appendcap", sI64)
 	e.assume(st, tAnd(app("bvsle", newLen, nc), app("bvsle", nc, i64(maxLen))))
+	// Modelling choice: a reallocated backing array keeps the data at the same offset as the old one
+	// (absolute offsets are unobservable), so its row is the old row plus the appended elements.
+	// Elements between len and cap of a reallocated array are therefore not known to be zero.
 	resB := e.fresh("append#b", sRef)
-	resO := e.fresh("append#o", sI64)
+	e.assume(st, tEq(resB, tIte(fits, s.B, nr)))
 	resC := tIte(fits, s.C, nc)
-	e.assume(st, tAnd(tEq(resB, tIte(fits, s.B, nr)), tEq(resO, tIte(fits, s.O, i64(0)))))
-	res := &SliceV{B: resB, O: resO, L: newLen, C: resC}
+	res := &SliceV{B: resB, O: s.O, L: newLen, C: resC}
+	e.note("append: elements between len and cap of a reallocated backing array are not modelled as zero")
 	// in-place writes touch s's backing array: frame check (only when it may happen)
 	if e.frameActive(fr) {
 		if lv, ok := litValue(tl); !(ok && lv == 0) {
-			// the store happens in s.B only if it fits
 			okc := []T{tNot(fits), e.freshAtEntry(s.B), tEq(tl, i64(0))}
 			skip := false
 			for _, t := range e.ownTargets() {
@@ -1332,45 +1337,25 @@ func (e *Eng) doAppend(fr *Frame, st *State, instr ssa.Instruction, cc *ssa.Call
 			return tSel(h, tb, app("bvadd", to, k))
 		}
 		oldRow := app("select", h, s.B)
-		var newRow T
+		start := app("bvadd", s.O, s.L)
 		if n, ok := litValue(tl); ok && n <= 16 {
-			// explicit stores; destination row depends on the case
-			// in place: row = oldRow with stores at s.O+s.L+k ; fresh: copy of prefix + stores
-			inPlace := oldRow
+			row := oldRow
 			for k := uint64(0); k < n; k++ {
-				inPlace = app("store", inPlace, app("bvadd", s.O, app("bvadd", s.L, i64(int64(k)))), srcRow(i64(int64(k))))
+				row = app("store", row, app("bvadd", start, i64(int64(k))), srcRow(i64(int64(k))))
 			}
-			freshRow := e.fresh("approw", arrSort(sI64, c.sort))
-			// prefix copy
-			e.assumeForallRange(st, s.L, func(k T) T {
-				return tEq(app("select", freshRow, k), app("select", oldRow, app("bvadd", s.O, k)))
-			}, func(k T) T { return app("select", freshRow, k) })
-			fr2 := freshRow
-			_ = fr2
-			for k := uint64(0); k < n; k++ {
-				e.assume(st, tEq(app("select", freshRow, app("bvadd", s.L, i64(int64(k)))), srcRow(i64(int64(k)))))
-			}
-			hIn := app("store", h, s.B, inPlace)
-			hFr := app("store", h, nr, freshRow)
-			st.heap[name] = tIte(fits, hIn, hFr)
+			st.heap[name] = app("store", h, resB, row)
 		} else {
-			newRow = e.fresh("approw", arrSort(sI64, c.sort))
-			// elements of the result, relative to res.O
-			e.assumeForallRange(st, s.L, func(k T) T {
-				return tEq(app("select", newRow, app("bvadd", resO, k)), app("select", oldRow, app("bvadd", s.O, k)))
-			}, func(k T) T { return app("select", newRow, app("bvadd", resO, k)) })
+			newRow := e.fresh("approw", arrSort(sI64, c.sort))
 			e.assumeForallRange(st, tl, func(k T) T {
-				return tEq(app("select", newRow, app("bvadd", resO, app("bvadd", s.L, k))), srcRow(k))
-			}, func(k T) T { return app("select", newRow, app("bvadd", resO, app("bvadd", s.L, k))) })
-			// in place: everything outside [s.O+s.L, s.O+newLen) is unchanged
-			e.nfresh++
-			kq := fmt.Sprintf("k!%d", e.nfresh)
+				return tEq(app("select", newRow, app("bvadd", start, k)), srcRow(k))
+			}, func(k T) T { return app("select", newRow, app("bvadd", start, k)) })
 			if !e.collect {
+				e.nfresh++
+				kq := fmt.Sprintf("k!%d", e.nfresh)
 				e.quantified = true
-				lo := app("bvadd", s.O, s.L)
 				hi := app("bvadd", s.O, newLen)
-				e.assume(st, tImp(fits, fmt.Sprintf("(forall ((%s %s)) (! (=> (or (bvslt %s %s) (bvsge %s %s)) (= (select %s %s) (select %s %s))) :pattern ((select %s %s))))",
-					kq, sI64, kq, lo, kq, hi, newRow, kq, oldRow, kq, newRow, kq)))
+				e.assume(st, fmt.Sprintf("(forall ((%s %s)) (! (=> (or (bvslt %s %s) (bvsge %s %s)) (= (select %s %s) (select %s %s))) :pattern ((select %s %s))))",
+					kq, sI64, kq, start, kq, hi, newRow, kq, oldRow, kq, newRow, kq))
 			}
 			st.heap[name] = app("store", h, resB, newRow)
 		}
@@ -1444,4 +1429,19 @@ func (e *Eng) checkFrameElemsCond(fr *Frame, st *State, base T, key string, in s
 // nativeModel: built-in models of a few library functions (trusted; listed in evidence).
 func (e *Eng) nativeModel(fr *Frame, st *State, instr ssa.Instruction, fn *ssa.Function, args []Val) (Val, bool) {
 	return nil, false
+}
+
+
+// globalMatches: heap names of package-level variables are "Glob|<pkgpath>.<name>|<component>".
+func globalMatches(heapName, varName string) bool {
+	if !strings.HasPrefix(heapName, "Glob|") {
+		return false
+	}
+	rest := heapName[5:]
+	i := strings.Index(rest, "|")
+	if i < 0 {
+		return false
+	}
+	full := rest[:i]
+	return full == varName || strings.HasSuffix(full, "."+varName)
 }
